@@ -7,12 +7,16 @@ SPEC = dict(
     rule="scripted scenarios with 2-4 rueidisaside clients (separate rueidis clients, SET NX GET and acquireLock-script "
          "variants) on one fake server running the real scripts under mini-Lua: miss/load/hit rounds, concurrent Gets of one "
          "key across clients with slow loaders, failing and panicking loaders, a loading client closed mid-load, expiry by "
-         "clock advance, writes and deletes by another application, Gets without loader. Every server command in the server's "
+         "clock advance, writes and deletes by another application, Gets without loader; kind race: several first Gets of ONE "
+         "fresh client (distinct keys, blocked loaders) racing in keepalive, ClientTTL passing on the virtual clock in two hops "
+         "each after an observed refresh, then other clients asking for those keys. Every server command in the server's "
          "total order, every cache hit, every delivered invalidation, every loader result and every return is one step of the "
          "recorded run which the model replays; non-trivial = at least two Gets; distinct by (kind, configuration, outcomes)",
     trusted=["client-side caching of rueidis itself (C06/C07): the model has an explicit per-client cache driven by the observed "
              "hits and invalidation deliveries",
-             "a SET NX whose reply is lost, OverrideCacheTTL, several Gets of one client racing in keepalive: not modelled",
+             "a SET NX whose reply is lost, OverrideCacheTTL: not modelled",
+             "the second critical section of keepalive (AInstall) leaves no trace on the server: the observer places it "
+             "before the first lock command that carries the marker; the marker SET is attributed to its Get by goroutine",
              "mini-Lua and the fake server's tracking / invalidation / virtual clock (tie only)"],
     assumptions=["label_ok: loaders and other applications never produce a value with the prefix 'rueidisid:', cached keys do "
                  "not have that prefix, client ids do",
@@ -27,12 +31,14 @@ MANIFEST = dict(
          "per key is the registered loader, it holds the lock on the server, a loader starts only on an absent key, and the "
          "registration disappears only through its own setkey/delkey, a write/DEL/expiry of the key or a release by a Get "
          "that found the holder's liveness key absent; from any state with a dead holder's placeholder another client's Get "
-         "reaches its loader in six steps; no lost wake-up for waiting Gets. Partial for timers and goroutine scheduling. Tie "
+         "reaches its loader in seven steps; whatever races in keepalive, a Get locks/loads/stores under the id installed in its "
+         "client, which is the one the refresh goroutine extends; no lost wake-up for waiting Gets. Partial for timers and goroutine scheduling. Tie "
          "by observation: real clients and the real script text under mini-Lua on the fake server, every run replayed by the "
-         "model step by step, plus a direct oracle (no placeholder, value origin, one loader at a time, dead lock released).",
+         "model step by step, plus a direct oracle (no placeholder, value origin, one loader at a time, dead lock released, no lock taken from a client "
+         "that is alive).",
     note="Partial: real time (TTL refresh, context timeouts, 'eventually') not modelled; wake-up delivery is an environment "
-         "assumption; lost replies of SET NX and concurrent keepalive of one client's Gets are outside the model.",
-    technique="Coq proof (three invariants of a labelled transition system + a progress lemma) + model-based trace validation "
+         "assumption; lost replies of SET NX are outside the model.",
+    technique="Coq proof (four invariants of a labelled transition system + a progress lemma) + model-based trace validation "
               "of real executions",
     category="proof",
 )
